@@ -190,6 +190,21 @@ def regress_lattice():
     vars_ = [{"n": "CH1", "kind": "choice", "cands": [NOVAL, "B1", "B2"]}, {"n": "<choice 2>", "kind": "choice", "cands": [NOVAL, "B3", "B4"]},
              {"n": "B6", "kind": "sym", "cands": [NOVAL, "y", "n"]}]
     out.append({"prog": ents, "ord": order, "vars": vars_, "family": "F-regress", "point": {"found_by": "C02 thorough", "fixed": "5af4a42"}})
+    # C08, open finding C08-resolution-order (seed 2 of the generator): B1's own select condition mentions I2, whose
+    # value depends on B1 (default condition, set default): with B1's default changed, I2's stored default is compared
+    # before B1's has been resolved
+    b1 = mk_config("B1", "bool", prompt=Y, defaults=[{"v": Y, "c": Y}])
+    b1["selects"].append({"t": "B4", "c": ["<", S("I2"), C("0")]})
+    b1["wsets"].append({"t": "I2", "v": C("5"), "c": Y, "str": False})
+    ents = [
+        b1,
+        mk_config("I2", "int", prompt=Y, defaults=[{"v": C("10"), "c": S("B1")}, {"v": C("11"), "c": Y}]),
+        mk_config("B3", "bool", prompt=Y, defaults=[{"v": Y, "c": S("B1")}, {"v": Y, "c": Y}]),
+        mk_config("B4", "bool", prompt=Y, dep=[">=", S("I2"), C("0")]),
+    ]
+    order = [["s", "B1"], ["s", "I2"], ["s", "B3"], ["s", "B4"]]
+    vars_ = [{"n": "B1", "kind": "sym", "cands": [NOVAL, "n"]}, {"n": "I2", "kind": "sym", "cands": [NOVAL, "3"]}, {"n": "B3", "kind": "sym", "cands": [NOVAL, "y", "n"]}, {"n": "B4", "kind": "sym", "cands": [NOVAL, "y"]}]
+    out.append({"prog": ents, "ord": order, "vars": vars_, "family": "F-regress", "point": {"found_by": "C08 quick, seed 2", "open": "C08-resolution-order"}})
     return out
 
 
